@@ -641,8 +641,8 @@ func runC10(c *Ctx) {
 			pub, priv, _ := ed25519.GenerateKey(detRand{r})
 			rd := append([]byte{1, 1, 3, dns.ED25519}, pub...)
 			tag, carry := rfcTag(rd)
-			if !carry {
-				continue
+			if !carry || tag == 0 || tag == 65535 {
+				continue // Sign refuses a key tag of 0 as "not set": such keys (and the one whose neighbour tag is 0) are no use here
 			}
 			found++
 			key := &dns.DNSKEY{Hdr: dns.RR_Header{Name: "example.org.", Rrtype: dns.TypeDNSKEY, Class: 1, Ttl: 3600}, Flags: 257, Protocol: 3, Algorithm: dns.ED25519, PublicKey: toB64(pub)}
